@@ -73,7 +73,14 @@ func main() {
 
 	if *ruleList != "" {
 		var all []report.Obligation
-		for _, id := range strings.Split(*ruleList, ",") {
+		ids := strings.Split(*ruleList, ",")
+		if *ruleList == "all" {
+			ids = nil
+			for _, x := range rules.Catalogue() {
+				ids = append(ids, x.ID)
+			}
+		}
+		for _, id := range ids {
 			var r *rules.Rule
 			for _, x := range rules.Catalogue() {
 				if x.ID == id {
